@@ -380,7 +380,9 @@ FieldViol(d, obs, known) ==
               ELSE IF devOk(LAMBDA a : ~a.absent /\ Len(obs) = 1 /\ IsInt(obs[1]) /\ Close(obs[1], d.raw, d.P, d.Q)) THEN {}
               ELSE {<<"C11", d.name, "sentinel reported as present">>}
          ELSE IF obs = << >>
-              THEN IF devOk(LAMBDA a : a.absent) THEN {} ELSE {<<"C11", d.name, "value reported as absent">>}
+              THEN IF devOk(LAMBDA a : a.absent) THEN {}
+                   \* a transmitted value that is not the 'not available' code must be reported (C11) as raw * scale (C10)
+                   ELSE {<<"C11", d.name, "value reported as absent">>, <<"C10", d.name, "value reported as absent">>}
               ELSE IF IsInt(obs[1]) /\ Close(obs[1], d.raw, d.P, d.Q) THEN {} ELSE {<<"C10", d.name, "value">>}
     ELSE \* "list"
          IF Len(obs) # Len(d.items) THEN {<<"C14", d.name, "count">>}
